@@ -663,13 +663,95 @@ def wrapper_transform_fields(cls, kd_transform):
     return fields
 
 
+MUTATORS = {"append", "extend", "insert", "pop", "remove", "clear", "update", "setdefault", "add", "discard", "popitem",
+            "appendleft", "popleft", "put", "sort", "reverse", "__setitem__", "__setattr__", "__delitem__",
+            "fill_", "copy_", "zero_", "mul_", "add_", "sub_", "div_"}
+CACHE_DECORATORS = {"lru_cache", "cache", "cached_property", "memoize"}
+
+
+def wrapper_state_writes(cls, kd_wrapper):
+    """The model of a sample wrapper has NO state besides the generator slots of its transforms (getitem_state changes
+    nothing else).  That is checked here, syntactically and fail-closed: the per-item code - every getitem_* / _getitem
+    function along the kappadata MRO and every method of the class it (transitively) calls through self.<method>(...) -
+    must not assign / delete / augment an attribute or item rooted at `self`, must not call a known mutator method on
+    one, must not use setattr / self.__dict__ / global / nonlocal, and must not be wrapped into a caching decorator.
+    -> list of offending places (empty = stateless)"""
+    methods = {}
+    for c in reversed(kd_mro(cls)):
+        if not issubclass(c, kd_wrapper):
+            continue
+        for name, fn in methods_of(class_ast(c)).items():
+            methods[name] = (c, fn)            # most derived definition wins
+    work = [n for n in methods if n.startswith("getitem_") or n == "_getitem"]
+    seen = set()
+    bad = []
+
+    def self_rooted(node):
+        ch = chain_of(node)
+        return ch is not None and len(ch) >= 2 and ch[0] == "self"
+
+    while work:
+        name = work.pop()
+        if name in seen or name not in methods:
+            continue
+        seen.add(name)
+        c, fn = methods[name]
+        who = f"{c.__name__}.{name}"
+        for dec in fn.decorator_list:
+            d = dec.func if isinstance(dec, ast.Call) else dec
+            ch = chain_of(d)
+            if ch and ch[-1] in CACHE_DECORATORS:
+                bad.append(f"{who} is wrapped into the caching decorator {ast.unparse(dec)}")
+        for node in ast.walk(fn):
+            if isinstance(node, (ast.Global, ast.Nonlocal)):
+                bad.append(f"{who}: {ast.unparse(node)} (line {node.lineno})")
+            targets = []
+            if isinstance(node, ast.Assign):
+                targets = node.targets
+            elif isinstance(node, (ast.AugAssign, ast.AnnAssign)):
+                targets = [node.target]
+            elif isinstance(node, ast.Delete):
+                targets = node.targets
+            elif isinstance(node, (ast.For, ast.comprehension)):
+                targets = [node.target]
+            elif isinstance(node, ast.NamedExpr):
+                targets = [node.target]
+            elif isinstance(node, ast.withitem) and node.optional_vars is not None:
+                targets = [node.optional_vars]
+            flat = []
+            for t in targets:
+                flat += [e for e in ast.walk(t) if isinstance(e, (ast.Attribute, ast.Subscript))] if isinstance(t, (ast.Tuple, ast.List, ast.Starred)) else [t]
+            for t in flat:
+                if isinstance(t, (ast.Attribute, ast.Subscript)) and self_rooted(t):
+                    bad.append(f"{who} writes {ast.unparse(t)} (line {t.lineno}): state that outlives the request")
+            if isinstance(node, ast.Call):
+                ch = chain_of(node.func)
+                if isinstance(node.func, ast.Name) and node.func.id in ("setattr", "delattr") and node.args \
+                        and isinstance(node.args[0], ast.Name) and node.args[0].id == "self":
+                    bad.append(f"{who}: {ast.unparse(node)} (line {node.lineno})")
+                if ch and ch[0] == "self" and len(ch) == 2:
+                    work.append(ch[1])
+                if ch and ch[0] == "self" and len(ch) >= 3 and ch[-1] in MUTATORS:
+                    bad.append(f"{who} calls the mutator {ast.unparse(node.func)} (line {node.lineno}): state that "
+                               "outlives the request")
+            if isinstance(node, ast.Attribute) and node.attr == "__dict__" and isinstance(node.value, ast.Name) \
+                    and node.value.id == "self":
+                bad.append(f"{who} touches self.__dict__ (line {node.lineno})")
+    return bad
+
+
 def describe_wrapper(cls, kd_transform, kd_wrapper):
     """descriptor of a sample wrapper; understands the five per-item code shapes that exist in the package"""
     who = cls.__name__
+    writes = wrapper_state_writes(cls, kd_wrapper)
+    if writes:
+        raise Abort("per-item code keeps state between requests (the model of a wrapper has none besides the generator "
+                    "slots of its transforms): " + "; ".join(writes[:4]))
     fields = wrapper_transform_fields(cls, kd_transform)
     aliases = {k[:-6]: v[0] for k, v in fields.items() if k.endswith("#alias")}
     fields = {k: v for k, v in fields.items() if not k.endswith("#alias")}
     inject, calls, local, wi = [], set(), set(), []
+    local_u = set()
     understood = False
     core = []     # (defining class, function) pairs that hold per-item code touching generators / transforms
     for c in kd_mro(cls):
@@ -690,6 +772,7 @@ def describe_wrapper(cls, kd_transform, kd_wrapper):
             inject += [x for x in res["inject"] if x not in inject]
             calls |= res["calls"]
             local |= res["local"]
+            local_u |= res["local_u"]
     # fields that merely alias other fields (MUGS.transforms) stand for their targets
     def expand(lst):
         out = []
@@ -721,6 +804,7 @@ def describe_wrapper(cls, kd_transform, kd_wrapper):
         "inject": inject,
         "calls": sorted(calls),
         "local": sorted(local),
+        "local_u": sorted(local_u),
         "wi": wi,
         "has_seed": "seed" in inspect.signature(cls.__init__).parameters or any(
             "seed" in inspect.signature(c.__init__).parameters for c in kd_mro(cls) if "__init__" in vars(c)),
@@ -791,7 +875,7 @@ def parse_getitem(fn, mod, who, fields):
                or any(("self." + f) in src for f in fields))
     if not touches:
         return None
-    res = {"inject": [], "calls": set(), "local": set()}
+    res = {"inject": [], "calls": set(), "local": set(), "local_u": set()}
     idxname = fn.args.args[1].arg if len(fn.args.args) > 1 and fn.args.args[1].arg in ("idx",) else "idx"
     loopvars = {}     # var -> field (for t in self.F) ; config loops: var.transform -> field
     for node in ast.walk(fn):
@@ -833,11 +917,25 @@ def parse_getitem(fn, mod, who, fields):
                     if txt not in ok:
                         raise Abort(f"{who}: per-item generator seeded with `{txt}` (line {node.lineno}); only "
                                     f"`self.seed + {idxname}` is understood")
+                    if len(v.args) + len(v.keywords) != 1:
+                        raise Abort(f"{who}: default_rng with extra arguments (line {node.lineno})")
                     gen_names.setdefault(nm, set()).add("seeded")
+                    if txt == ok[1]:
+                        # default_rng(None) when the wrapper has no seed: OS entropy
+                        gen_names[nm].add("unseeded:GFresh")
                 elif ch and inspect.isclass(mod.__dict__.get(ch[0])) and mod.__dict__[ch[0]].__name__ == "GlobalRng":
-                    gen_names.setdefault(nm, set()).add("unseeded")
+                    if v.args or v.keywords:
+                        raise Abort(f"{who}: GlobalRng with arguments (line {node.lineno})")
+                    gen_names.setdefault(nm, set()).add("unseeded:GNumpy")
+                elif nm == "rng" or nm.endswith("_rng") or nm == "generator":
+                    raise Abort(f"{who}: generator-looking local `{nm}` bound to `{ast.unparse(v)[:60]}` "
+                                f"(line {node.lineno}); only default_rng(seed=self.seed + {idxname}), GlobalRng() and "
+                                "None are understood")
             elif isinstance(v, ast.Constant) and v.value is None:
                 gen_names.setdefault(nm, set()).add("unseeded")
+            elif nm == "rng" or nm.endswith("_rng") or nm == "generator":
+                raise Abort(f"{who}: generator-looking local `{nm}` bound to `{ast.unparse(v)[:60]}` (line {node.lineno}); "
+                            f"only default_rng(seed=self.seed + {idxname}), GlobalRng() and None are understood")
     gens = {n for n, kinds in gen_names.items() if "seeded" in kinds}
 
     # 2. walk statements: forwards, calls, local draws
@@ -896,6 +994,9 @@ def parse_getitem(fn, mod, who, fields):
                 if ch and len(ch) == 2 and ch[0] in gen_names and ch[1] in NP_GEN_METHODS:
                     if "seeded" in gen_names[ch[0]]:
                         res["local"].add("LSeeded")
+                    for kind in gen_names[ch[0]]:
+                        if kind.startswith("unseeded:"):
+                            res["local_u"].add(kind.split(":")[1])
                     continue
                 if ch and ch[0] not in ("self", "super()"):
                     mk = module_kind(mod.__dict__.get(ch[0]))
@@ -910,7 +1011,7 @@ def parse_getitem(fn, mod, who, fields):
 
     visit(fn.body, {})
     # a multi-field guard union: the same field injected under two guards -> both kept (first wins in the model)
-    if not res["inject"] and not res["calls"] and not res["local"] and not gens:
+    if not res["inject"] and not res["calls"] and not res["local"] and not res["local_u"] and not gens:
         return None
     return res
 
@@ -968,6 +1069,31 @@ def describe_dataset_classes():
     return out
 
 
+def check_rng_helpers():
+    """the two helpers everything else is expressed in are compared TEXTUALLY (ast.unparse, comments dropped) with what
+    the model assumes: get_rng_from_global() = a generator seeded with ONE draw of the process-global NumPy RNG and
+    nothing else; GlobalRng = a thin view of np.random.  -> list of errors"""
+    import kappadata.utils.random as m_rand
+    import kappadata.utils.global_rng as m_glob
+    errs = []
+    fn = func_ast(m_rand.get_rng_from_global)
+    body = [st for st in fn.body if not (isinstance(st, ast.Expr) and isinstance(st.value, ast.Constant))]
+    sig = ast.unparse(fn.args)
+    txt = "\n".join(ast.unparse(st) for st in body)
+    want = "return np.random.default_rng(seed=np.random.randint(np.iinfo(np.int32).max))"
+    if sig != "" or txt != want or module_kind(m_rand.__dict__.get("np")) != "numpy":
+        errs.append(f"utils.random.get_rng_from_global({sig}) is `{txt[:300]}`; the model assumes `{want}` (one draw of the "
+                    "global NumPy RNG, no other ingredient)")
+    cnode = class_ast(m_glob.GlobalRng)
+    got = {n: "\n".join(ast.unparse(st) for st in f.body) for n, f in methods_of(cnode).items()}
+    want_g = {"__getattr__": "return getattr(np.random, item)",
+              "integers": "return np.random.randint(low=low, high=high, size=size)",
+              "permuted": "assert axis is None and out is None\nperm = np.random.permutation(len(x))\nreturn x[perm]"}
+    if got != want_g or module_kind(m_glob.__dict__.get("np")) != "numpy" or len(cnode.body) != len(want_g):
+        errs.append(f"utils.global_rng.GlobalRng is not the thin view of np.random the model assumes: {got}")
+    return errs
+
+
 # ---------------------------------------------------------------------------
 # rendering
 # ---------------------------------------------------------------------------
@@ -999,7 +1125,8 @@ def render_wdesc(d):
             + coq_list(["(" + q(f) + ", " + coq_list([q(c) for c in cs]) + ")" for f, cs in d["fields"]]) + "\n    "
             + coq_list(["(" + q(f) + ", " + coq_guard(g) + ")" for f, g in d["inject"]]) + " "
             + coq_list([q(c) for c in d["calls"]]) + " "
-            + coq_list([("LSeeded" if x == "LSeeded" else "(LGlob " + x + ")") for x in d["local"]]) + "\n    "
+            + coq_list([("LSeeded" if x == "LSeeded" else "(LGlob " + x + ")") for x in d["local"]]) + " "
+            + coq_list(d["local_u"]) + "\n    "
             + coq_list(["(" + q(f) + ", " + coq_guard(g) + ")" for f, g in d["wi"]]))
 
 
@@ -1069,6 +1196,10 @@ def translate(repo):
     except Exception as e:  # noqa
         ds = {"fwd": [], "wrapper": False, "root": False}
         errors.append(f"dataset classes: {type(e).__name__}: {e}")
+    try:
+        errors += check_rng_helpers()
+    except Exception as e:  # noqa
+        errors.append(f"rng helpers: {type(e).__name__}: {e}")
 
     txt = HEADER
     txt += "Definition rng_table : table := [\n" + ";\n".join(render_desc(d) for d in descs) + "\n].\n\n"
@@ -1105,3 +1236,369 @@ def regenerate(repo=None):
             f.write(txt)
     _LAST["info"] = info
     return info
+
+
+# ---------------------------------------------------------------------------
+# what the translator accepts (everything else aborts), and a negative self-test
+# ---------------------------------------------------------------------------
+ACCEPTS = """
+transform / collator classes (describe_class)
+  __init__ (along the kappadata MRO): `self.F = <expr>` / annotated assignment, classified by <expr>:
+      get_rng_from_global()                 -> own generator slot (only under the name `rng`)
+      KDTransformSubclass(...)              -> child field with that static class
+      object_to_transform(...)              -> child field, class decided by the user
+      [object_to_transform(t) for t in ..]  -> list-valued child field
+      <constructor parameter>               -> child field iff some method calls it / iterates and calls it / calls its
+                                               set_rng, else data
+      MagnitudeSampler(...)                 -> helper (its methods are scanned for global sources)
+      torchvision class(...)                -> foreign callable (deterministic ones listed in TV_DETERMINISTIC, others
+                                               count as a GTorch source)
+      anything else                         -> data
+  set_rng(self, rng) (first definition in the MRO, `super().set_rng(rng)` followed): only
+      pass / docstring / return / return self / raise
+      self.rng = rng
+      self.F.set_rng(rng)  |  return self.F.set_rng(rng)
+      if isinstance(self.F, (Classes)): self.F.set_rng(rng)                       (no else)
+      for t in self.F: t.set_rng(rng)  |  for t in self.F: if isinstance(t, (Classes)): t.set_rng(rng)
+  every other method (over-approximation of "reachable from __call__"):
+      any load of self.rng, or of a local alias `r = self.rng`            -> draw from the own slot
+      calls on / with a child field (self.F(...), self.F[i](...), loop variable over self.F, self._apply(t, ..))
+                                                                        -> the field is called
+      np.random.<draw>, numpy.random functions imported by name         -> GNumpy
+      random.<anything>                                                  -> GPython
+      torch.<rand, randn, randint, randperm, bernoulli, multinomial, normal, *_like, poisson, dropout, manual_seed, seed>
+          without generator=                                             -> GTorch
+      np.random.default_rng() without seed                               -> GFresh ; with a seed: no source
+      get_rng_from_global(), GlobalRng()                                 -> GNumpy
+      kappadata module-level functions                                   -> scanned recursively
+      <parameter>.<draw>()                                               -> draw from a generator handed in by the caller
+      <local of unknown origin>.<draw>(), self.<unknown attr>...<draw>() -> ABORT
+  _worker_init_fn touching rng / set_rng / get_rng_from_global           -> ABORT
+sample wrappers (describe_wrapper)
+  transform fields: object_to_transform(...), KDTransformSubclass(...), [object_to_transform(t) for t in ..],
+      [self.A, self.B, ..] (alias list), `self.transform_configs = configs`
+  per-item functions (getitem_* / _getitem):
+      rng = np.random.default_rng(seed=self.seed + idx)            (exactly this seed expression; or
+            `self.seed + idx if self.seed is not None else None`, recorded as OS entropy on the unseeded path)
+      rng = GlobalRng()  /  rng = None                              (unseeded path)
+      any other value bound to a local called rng / *_rng / generator -> ABORT
+      T.set_rng(rng) with T a transform field / loop variable over one / <config>.transform, the argument being the
+            per-item generator, optionally under `if isinstance(T, (Classes) | self._CLASS_TUPLE)` and
+            `rng is not None and isinstance(..)` / `self.seed is not None and ..`
+      calls of transform fields; rng.<draw>() of the per-item generator; np.random / random / torch global draws
+  per-item code (transitively through self.<method>()) that assigns / deletes / mutates anything rooted at self, uses
+      setattr / self.__dict__ / global / nonlocal, or is wrapped into a caching decorator      -> ABORT
+  _worker_init_fn: (loops over a transform field of) `if isinstance(T, (Classes)): T.worker_init_fn(rank, **kwargs)`
+helpers (check_rng_helpers): the exact text of utils.random.get_rng_from_global (`return np.random.default_rng(seed=
+  np.random.randint(np.iinfo(np.int32).max))`, no parameters) and of utils.global_rng.GlobalRng (thin view of np.random)
+dataset classes (describe_dataset_classes): the exact text of worker_init_fn of ModeWrapper, KDSubset, KDConcatDataset,
+  _InterleavedConcatDataset (forward to every wrapped dataset), KDWrapper (own hook, then wrapped dataset), KDDataset
+  (one get_rng_from_global() handed to every collator); any other text makes the table entry `false`.
+"""
+
+_SELFTEST_PRELUDE = """
+import numpy as np
+import random
+import torch
+from functools import lru_cache
+from kappadata.utils.random import get_rng_from_global
+from kappadata.utils.global_rng import GlobalRng
+from kappadata.factory import object_to_transform
+from kappadata.datasets.kd_wrapper import KDWrapper
+from kappadata.transforms.base.kd_transform import KDTransform
+from kappadata.transforms.base.kd_stochastic_transform import KDStochasticTransform
+from kappadata.transforms.base.kd_compose_transform import KDComposeTransform
+from kappadata.transforms.kd_random_horizontal_flip import KDRandomHorizontalFlip
+"""
+
+# (name, kind, must be accepted?, source of class `T`)
+_SELFTEST_SOURCES = [
+    ("ok_leaf", "transform", True, """
+class T(KDStochasticTransform):
+    def __call__(self, x, ctx=None):
+        return x if self.rng.random() < 0.5 else x.flip(-1)
+"""),
+    ("ok_container", "transform", True, """
+class T(KDTransform):
+    def __init__(self, transform):
+        super().__init__()
+        self.child = object_to_transform(transform)
+    def set_rng(self, rng):
+        if isinstance(self.child, KDTransform):
+            self.child.set_rng(rng)
+        return self
+    def __call__(self, x, ctx=None):
+        return self.child(x, ctx=ctx)
+"""),
+    ("set_rng_behind_flag", "transform", False, """
+class T(KDTransform):
+    def __init__(self, transform, forward=True):
+        super().__init__()
+        self.child = object_to_transform(transform)
+        self.forward = forward
+    def set_rng(self, rng):
+        if self.forward:
+            self.child.set_rng(rng)
+        return self
+    def __call__(self, x, ctx=None):
+        return self.child(x, ctx=ctx)
+"""),
+    ("set_rng_forwards_other_generator", "transform", False, """
+class T(KDTransform):
+    def __init__(self, transform):
+        super().__init__()
+        self.child = object_to_transform(transform)
+    def set_rng(self, rng):
+        self.child.set_rng(np.random.default_rng(0))
+        return self
+    def __call__(self, x, ctx=None):
+        return self.child(x, ctx=ctx)
+"""),
+    ("set_rng_else_branch", "transform", False, """
+class T(KDTransform):
+    def __init__(self, transform):
+        super().__init__()
+        self.child = object_to_transform(transform)
+    def set_rng(self, rng):
+        if isinstance(self.child, KDStochasticTransform):
+            self.child.set_rng(rng)
+        else:
+            pass
+        return self
+    def __call__(self, x, ctx=None):
+        return self.child(x, ctx=ctx)
+"""),
+    ("set_rng_extra_parameter", "transform", False, """
+class T(KDStochasticTransform):
+    def set_rng(self, rng, deep=False):
+        self.rng = rng
+        return self
+    def __call__(self, x, ctx=None):
+        return x * self.rng.random()
+"""),
+    ("set_rng_while_loop", "transform", False, """
+class T(KDTransform):
+    def __init__(self, transforms):
+        super().__init__()
+        self.ts = [object_to_transform(t) for t in transforms]
+    def set_rng(self, rng):
+        i = 0
+        while i < len(self.ts):
+            self.ts[i].set_rng(rng)
+            i += 1
+        return self
+    def __call__(self, x, ctx=None):
+        for t in self.ts:
+            x = t(x)
+        return x
+"""),
+    ("generator_under_other_name", "transform", False, """
+class T(KDTransform):
+    def __init__(self):
+        super().__init__()
+        self.gen = get_rng_from_global()
+    def __call__(self, x, ctx=None):
+        return x * self.gen.random()
+"""),
+    ("self_rng_from_elsewhere", "transform", False, """
+class T(KDTransform):
+    def __init__(self, seed=3):
+        super().__init__()
+        self.rng = np.random.default_rng(seed)
+    def __call__(self, x, ctx=None):
+        return x * self.rng.random()
+"""),
+    ("draw_on_unknown_local", "transform", False, """
+def make():
+    return np.random.default_rng(1)
+class T(KDTransform):
+    def __call__(self, x, ctx=None):
+        g = make()
+        return x * g.random()
+"""),
+    ("draw_on_unknown_attribute", "transform", False, """
+class T(KDTransform):
+    def __init__(self, sampler):
+        super().__init__()
+        self.sampler = dict(s=sampler)
+    def __call__(self, x, ctx=None):
+        return x * self.sampler.integers(3)
+"""),
+    ("forward_to_non_transform_field", "transform", False, """
+class T(KDTransform):
+    def __init__(self, scale):
+        super().__init__()
+        self.scale = float(scale)
+    def set_rng(self, rng):
+        self.scale.set_rng(rng)
+        return self
+    def __call__(self, x, ctx=None):
+        return x * self.scale
+"""),
+    ("worker_hook_touches_generators", "transform", False, """
+class T(KDStochasticTransform):
+    def _worker_init_fn(self, rank, num_workers, **kwargs):
+        self.rng = np.random.default_rng(rank)
+    def __call__(self, x, ctx=None):
+        return x * self.rng.random()
+"""),
+    ("ok_wrapper", "wrapper", True, """
+class T(KDWrapper):
+    def __init__(self, dataset, transform, seed=None):
+        super().__init__(dataset=dataset)
+        self.transform = object_to_transform(transform)
+        self.seed = seed
+    def getitem_x(self, idx, ctx=None):
+        x = self.dataset.getitem_x(idx, ctx=ctx)
+        if self.seed is not None:
+            rng = np.random.default_rng(seed=self.seed + idx)
+            if isinstance(self.transform, KDTransform):
+                self.transform.set_rng(rng)
+        return self.transform(x)
+    def _worker_init_fn(self, rank, **kwargs):
+        if isinstance(self.transform, KDTransform):
+            self.transform.worker_init_fn(rank, **kwargs)
+"""),
+    ("wrapper_seed_times_idx", "wrapper", False, """
+class T(KDWrapper):
+    def __init__(self, dataset, transform, seed=None):
+        super().__init__(dataset=dataset)
+        self.transform = object_to_transform(transform)
+        self.seed = seed
+    def getitem_x(self, idx, ctx=None):
+        x = self.dataset.getitem_x(idx, ctx=ctx)
+        rng = np.random.default_rng(seed=self.seed * idx)
+        self.transform.set_rng(rng)
+        return self.transform(x)
+"""),
+    ("wrapper_seed_truthiness", "wrapper", False, """
+class T(KDWrapper):
+    def __init__(self, dataset, transform, seed=None):
+        super().__init__(dataset=dataset)
+        self.transform = object_to_transform(transform)
+        self.seed = seed
+    def getitem_x(self, idx, ctx=None):
+        x = self.dataset.getitem_x(idx, ctx=ctx)
+        rng = np.random.default_rng(seed=self.seed + idx) if self.seed else None
+        if rng is not None:
+            self.transform.set_rng(rng)
+        return self.transform(x)
+"""),
+    ("wrapper_salted_generator", "wrapper", False, """
+class T(KDWrapper):
+    def __init__(self, dataset, transform, seed=None):
+        super().__init__(dataset=dataset)
+        self.transform = object_to_transform(transform)
+        self.seed = seed
+    def getitem_x(self, idx, ctx=None):
+        x = self.dataset.getitem_x(idx, ctx=ctx)
+        rng = np.random.default_rng([self.seed + idx, hash(type(self).__name__)])
+        self.transform.set_rng(rng)
+        return self.transform(x)
+"""),
+    ("wrapper_injects_other_generator", "wrapper", False, """
+class T(KDWrapper):
+    def __init__(self, dataset, transform, seed=None):
+        super().__init__(dataset=dataset)
+        self.transform = object_to_transform(transform)
+        self.seed = seed
+    def getitem_x(self, idx, ctx=None):
+        x = self.dataset.getitem_x(idx, ctx=ctx)
+        rng = np.random.default_rng(seed=self.seed + idx)
+        self.transform.set_rng(get_rng_from_global())
+        return self.transform(x)
+"""),
+    ("wrapper_memoises_last_result", "wrapper", False, """
+class T(KDWrapper):
+    def __init__(self, dataset, transform, seed=None):
+        super().__init__(dataset=dataset)
+        self.transform = object_to_transform(transform)
+        self.seed = seed
+        self._last = None
+    def getitem_x(self, idx, ctx=None):
+        return self._cached(idx)
+    def _cached(self, idx):
+        if self._last is None or self._last[0] != idx:
+            rng = np.random.default_rng(seed=self.seed + idx)
+            self.transform.set_rng(rng)
+            self._last = (idx, self.transform(self.dataset.getitem_x(idx)))
+        return self._last[1]
+"""),
+    ("wrapper_item_cache_dict", "wrapper", False, """
+class T(KDWrapper):
+    def __init__(self, dataset, transform, seed=None):
+        super().__init__(dataset=dataset)
+        self.transform = object_to_transform(transform)
+        self.seed = seed
+        self.cache = {}
+    def getitem_x(self, idx, ctx=None):
+        if idx not in self.cache:
+            rng = np.random.default_rng(seed=self.seed + idx)
+            self.transform.set_rng(rng)
+            self.cache[idx] = self.transform(self.dataset.getitem_x(idx))
+        return self.cache[idx]
+"""),
+    ("wrapper_lru_cache", "wrapper", False, """
+class T(KDWrapper):
+    def __init__(self, dataset, transform, seed=None):
+        super().__init__(dataset=dataset)
+        self.transform = object_to_transform(transform)
+        self.seed = seed
+    @lru_cache(maxsize=1)
+    def getitem_x(self, idx, ctx=None):
+        rng = np.random.default_rng(seed=self.seed + idx)
+        self.transform.set_rng(rng)
+        return self.transform(self.dataset.getitem_x(idx))
+"""),
+    ("wrapper_worker_hook_unknown_statement", "wrapper", False, """
+class T(KDWrapper):
+    def __init__(self, dataset, transform, seed=None):
+        super().__init__(dataset=dataset)
+        self.transform = object_to_transform(transform)
+        self.seed = seed
+    def getitem_x(self, idx, ctx=None):
+        return self.transform(self.dataset.getitem_x(idx))
+    def _worker_init_fn(self, rank, **kwargs):
+        if rank > 0:
+            self.transform.worker_init_fn(rank, **kwargs)
+"""),
+]
+
+
+def selftest():
+    """negative self-test: every synthetic class with an unsupported shape must make the translator ABORT, the
+    well-formed controls must be accepted.  -> list of {"name", "expected", "got", "detail"}"""
+    import importlib.util
+    import tempfile
+    from kappadata.transforms.base.kd_transform import KDTransform
+    from kappadata.datasets.kd_wrapper import KDWrapper
+    out = []
+    with tempfile.TemporaryDirectory(prefix="kd_translator_selftest_") as d:
+        for k, (name, kind, accept, src) in enumerate(_SELFTEST_SOURCES):
+            modname = f"kappadata_translator_selftest_{k}_{name}"      # (is_kd: module names start with 'kappadata')
+            fn = os.path.join(d, modname + ".py")
+            with open(fn, "w") as f:
+                f.write(_SELFTEST_PRELUDE + src)
+            got, detail = "accepted", ""
+            try:
+                spec = importlib.util.spec_from_file_location(modname, fn)
+                mod = importlib.util.module_from_spec(spec)
+                sys.modules[modname] = mod
+                spec.loader.exec_module(mod)
+                cls = mod.T
+                if kind == "transform":
+                    desc = describe_class(cls, KDTransform)
+                    detail = f"set_self={desc['set_self']} fwd={desc['set_fwd']} draw_self={desc['draw_self']} glob={desc['draw_glob']}"
+                else:
+                    _CUR_CLASS[0] = cls
+                    desc = describe_wrapper(cls, KDTransform, KDWrapper)
+                    detail = f"inject={desc['inject']} calls={desc['calls']} local={desc['local']} wi={desc['wi']}"
+            except Abort as e:
+                got, detail = "abort", str(e)[:200]
+            except Exception as e:  # noqa
+                got, detail = "crash", f"{type(e).__name__}: {str(e)[:200]}"
+            finally:
+                sys.modules.pop(modname, None)
+            out.append({"name": name, "kind": kind, "expected": "accepted" if accept else "abort", "got": got, "detail": detail})
+    return out
+
